@@ -21,9 +21,8 @@ type hexFixedPrefixer struct {
 }
 
 func (p *hexFixedPrefixer) EncodeLength(fixLen, dataLen int) ([]byte, error) {
-	// for ascii hex the length is x2 (ascii hex digit takes one byte)
-	if dataLen != fixLen*2 {
-		return nil, fmt.Errorf(fieldLengthShouldBeFixed, dataLen, fixLen*2)
+	if dataLen != fixLen {
+		return nil, fmt.Errorf(fieldLengthShouldBeFixed, dataLen, fixLen)
 	}
 
 	return []byte{}, nil
